@@ -41,6 +41,10 @@ def run(ctx):
     else:
         scenes = solids.make_scenes(ctx.seed, 800, 100, 100, grid_n=17)
         noracle, ngrid, nshard = 150, 17, 14
+    # generalised-prism gallery, EVERY run: faces degenerate to a point / a line at -z and at +z, skewed, tapered,
+    # twisted; 3-6 sides; both vertex windings (56 prisms per seed; thorough: three seeds)
+    for k in range(1 if q else 3):
+        scenes += solids.genprism_gallery(ctx.seed + k, len(scenes), 7 if small else 9)
     # oracle-decided family (outside the lattice vocabulary; expectation computed by the harness)
     for i in range(noracle):
         s = solids.oracle_scene(ctx.seed * 31 + i, len(scenes), ngrid)
@@ -169,7 +173,8 @@ def run(ctx):
                 "definitions (every scene has at least one non-background volume); compared = probes neither in an "
                 "input overlap nor uncovered; a disagreeing probe is excused only if NearInScene (exact) holds",
         "scenes": len(scenes), "scenes_by_family": fams, "failed_builds": total.get("failed_builds", 0),
-        "per_primitive": {k: v for k, v in sorted(kinds.items()) if not k.startswith(("op:", "boundary:"))},
+        "per_primitive": {k: v for k, v in sorted(kinds.items()) if not k.startswith(("op:", "boundary:", "gallery:"))},
+        "genprism_gallery": {k[8:]: v for k, v in sorted(kinds.items()) if k.startswith("gallery:")},
         "per_operator": {k[3:]: v for k, v in sorted(kinds.items()) if k.startswith("op:")},
         "per_boundary": {k[9:]: v for k, v in sorted(kinds.items()) if k.startswith("boundary:")},
         "probe_classes": {k: total.get(k, 0) for k in ("in_exterior", "in_background", "in_material", "in_daughter")},
